@@ -55,6 +55,11 @@ pub fn plain(ctx: &mut Ctx) {
     ctx.sim.rt.policy.set(rt::Policy::default());
 }
 
+/// keep the calling task (and everything it owns, sockets included) alive for the rest of the run
+pub async fn park() {
+    futures::future::pending::<()>().await
+}
+
 pub fn to_zmq(frames: &[Vec<u8>]) -> ZmqMessage {
     let v: Vec<Bytes> = frames.iter().map(|f| Bytes::from(f.clone())).collect();
     ZmqMessage::try_from(v).expect("non-empty message")
